@@ -28,6 +28,7 @@ type MatCase struct {
 	Trees  []*ref.Node `json:"trees"` // one tree: ToDistanceMatrix; several: AvgDistanceMatrix too
 	Metric string      `json:"metric"` // brlen | boot | none
 	CLI    bool        `json:"cli,omitempty"`
+	Mem    int         `json:"mem,omitempty"` // > 0: trees re-rooted in memory first (distances do not depend on the rooting)
 }
 
 var metricOf = map[string][2]int{"brlen": {tree.DISTANCE_METRIC_BRLEN, ref.MetricLen}, "boot": {tree.DISTANCE_METRIC_BOOTS, ref.MetricSup}, "none": {tree.DISTANCE_METRIC_NONE, ref.MetricOne}}
@@ -47,6 +48,9 @@ func genMat(t *rapid.T, thorough bool) MatCase {
 		}
 	}
 	c.CLI = cli.Available() && rapid.IntRange(0, 19).Draw(t, "cli") == 0
+	if rapid.IntRange(0, 2).Draw(t, "mem") == 0 {
+		c.Mem = rapid.IntRange(1, 50).Draw(t, "memsel")
+	}
 	return c
 }
 
@@ -83,6 +87,9 @@ func checkMat(c MatCase) error {
 	for k, m := range c.Trees {
 		t, err := gt.FromModel(m)
 		if err != nil {
+			return err
+		}
+		if err := gt.RerootInMemory(t, c.Mem); err != nil {
 			return err
 		}
 		gts = append(gts, t)
@@ -252,6 +259,7 @@ type CutCase struct {
 	Tree *ref.Node `json:"tree"`
 	Thr  float64   `json:"thr"`
 	CLI  bool      `json:"cli,omitempty"`
+	Mem  int       `json:"mem,omitempty"`
 }
 
 func genCut(t *rapid.T, thorough bool) CutCase {
@@ -293,7 +301,11 @@ func genCut(t *rapid.T, thorough bool) CutCase {
 		// the documentation does not say whether a branch without length is cut for thresholds <= 0
 		thr = 0.5
 	}
-	return CutCase{Tree: m, Thr: thr, CLI: cli.Available() && rapid.IntRange(0, 19).Draw(t, "cli") == 0}
+	cc := CutCase{Tree: m, Thr: thr, CLI: cli.Available() && rapid.IntRange(0, 19).Draw(t, "cli") == 0}
+	if rapid.IntRange(0, 2).Draw(t, "mem") == 0 {
+		cc.Mem = rapid.IntRange(1, 50).Draw(t, "memsel")
+	}
+	return cc
 }
 
 // components: union-find over the branches that are shorter than the threshold
@@ -340,6 +352,9 @@ func components(m *ref.Node, thr float64) []string {
 func checkCut(c CutCase) error {
 	t, err := gt.FromModel(c.Tree)
 	if err != nil {
+		return err
+	}
+	if err := gt.RerootInMemory(t, c.Mem); err != nil {
 		return err
 	}
 	want := components(c.Tree, c.Thr)
